@@ -75,6 +75,12 @@
    thrift/proto Node.SetMany    Get(0:pnsPool); overwrite; Put(0)  (node.go:998-1033 / value.go:1068-1128). Write API.
    apiNoBodyStruct.Request      Get(0:bpPool) annotation/http_mapping.go:317; CopyOut(0) :340-341; Put(0) :342
    BinaryProtocol.SkipNative    Get(0:tsmPool) binary_skip_amd64.go:37; Put(0) :43; error exit :40 Drop(0) (leak)
+   generic.NewNode{Any,List,Set,Map,Struct}  thrift/generic/node.go:83-205: pooled protocol OBJECT over a fresh make()d array; the Node returned
+                                IS that array = HandOver(0); the object is dropped (leak), never Recycle()d. NewNodeString/Binary/Int* build on
+                                a plain make() without a protocol. (seeded C12-8: `defer p.Recycle()` + lost borrowed mark = ReturnDirect; Put)
+   j2t HTTPConv.Do (result)     http_conv.go:84-90: tbytes := make(top+body+bottom) = CopyOut; h.top / h.bottom are exact-size arrays owned by the
+                                converter (thrift/binary.go GetBinaryMessageHeaderAndFooter). (seeded C12-9: append(h.top, body...) with spare
+                                capacity = Borrow of the converter's array + ReturnDirect)
    NewBinaryProtocol(buf)       thrift/binary.go:84-88 / proto binary.go:115-119: takes a pooled OBJECT and points it at the CALLER's
      + Recycle()                buffer = Borrow(0, caller's buffer); Recycle (binary.go:104-107) then is Put(0) of a buffer that is
                                 owned by the caller: the caller's input ends up in the pool (finding 1201/1202, borrow_recycle_refuted).
@@ -114,6 +120,8 @@ Inductive op :=
 | CopyOut (c s : nat)                                (* result := fresh copy of the logical content, owned by the caller *)
 | Put (c s : nat)                                    (* len := 0, buffer enters the pool, slot cleared *)
 | Drop (c s : nat)                                   (* leak: slot cleared, buffer neither pooled nor owned *)
+| HandOver (c s : nat)                               (* the working buffer itself becomes the result and the call forgets it
+                                                        (slot cleared, so it can never be Put): generic.NewNode*, j2p.DoInto *)
 (* what a buggy api would do *)
 | ReturnDirect (c s : nat)                           (* result aliases the working buffer *)
 | PutKeep (c s : nat)                                (* Put, but the call keeps using the buffer *)
@@ -121,7 +129,7 @@ Inductive op :=
 
 Definition call_of (o : op) : nat :=
   match o with
-  | Get c _ _ _ | Append c _ _ | Update c _ _ _ | Overwrite c _ _ | Grow c _ _ | Move c _ _ | Read c _ | CopyOut c _ | Put c _ | Drop c _
+  | Get c _ _ _ | Append c _ _ | Update c _ _ _ | Overwrite c _ _ | Grow c _ _ | Move c _ _ | Read c _ | CopyOut c _ | Put c _ | Drop c _ | HandOver c _
   | ReturnDirect c _ | PutKeep c _ | Borrow c _ _ => c
   end.
 
@@ -214,6 +222,11 @@ Definition step (st : state) (o : op) : state :=
       end
   | Drop c s =>
       mkState (next st) (pool st) (owned st) (upd_work (work st) c s None) (mem st) (obs st)
+  | HandOver c s =>
+      match work st c s with
+      | Some b => mkState (next st) (pool st) (b :: owned st) (upd_work (work st) c s None) (mem st) ((c, logical (mem st b)) :: obs st)
+      | None => st
+      end
   | ReturnDirect c s =>
       match work st c s with
       | Some b => mkState (next st) (pool st) (b :: owned st) (work st) (mem st) ((c, logical (mem st b)) :: obs st)
@@ -273,6 +286,7 @@ Definition pstep (ps : pstate) (o : op) : pstate :=
   | Read c s | CopyOut c s => match pw ps c s with Some l => mkP (pw ps) ((c, l) :: pobs ps) | None => ps end
   | Put c s => match pw ps c s with Some _ => mkP (upd_pw (pw ps) c s None) (pobs ps) | None => ps end
   | Drop c s => mkP (upd_pw (pw ps) c s None) (pobs ps)
+  | HandOver c s => match pw ps c s with Some l => mkP (upd_pw (pw ps) c s None) ((c, l) :: pobs ps) | None => ps end
   | _ => ps
   end.
 
@@ -294,14 +308,14 @@ Definition pure_result (c : nat) (ops : list op) : list (list Z) := pobs_of c (p
 
 (* -------- scripts: the pool-relevant skeleton of each api, every exit a branch -------- *)
 
-Inductive shape := HGet (s : nat) | HMove (s s' : nat) | HCopyOut (s : nat) | HPut (s : nat) | HDrop (s : nat)
+Inductive shape := HGet (s : nat) | HMove (s s' : nat) | HCopyOut (s : nat) | HPut (s : nat) | HDrop (s : nat) | HHandOver (s : nat)
                  | HReturnDirect (s : nat) | HPutKeep (s : nat) | HBorrow (s : nat).
 
 (* work operations (Append, Update, Overwrite, Grow, Read) may occur anywhere: they are not part of the skeleton *)
 Definition shape_of (o : op) : option shape :=
   match o with
   | Get _ s _ _ => Some (HGet s) | Move _ s s' => Some (HMove s s') | CopyOut _ s => Some (HCopyOut s)
-  | Put _ s => Some (HPut s) | Drop _ s => Some (HDrop s)
+  | Put _ s => Some (HPut s) | Drop _ s => Some (HDrop s) | HandOver _ s => Some (HHandOver s)
   | ReturnDirect _ s => Some (HReturnDirect s) | PutKeep _ s => Some (HPutKeep s) | Borrow _ s _ => Some (HBorrow s)
   | _ => None
   end.
@@ -319,7 +333,7 @@ Definition script := list shape.
 
 Definition shape_eqb (a b : shape) : bool :=
   match a, b with
-  | HGet s, HGet t | HCopyOut s, HCopyOut t | HPut s, HPut t | HDrop s, HDrop t
+  | HGet s, HGet t | HCopyOut s, HCopyOut t | HPut s, HPut t | HDrop s, HDrop t | HHandOver s, HHandOver t
   | HReturnDirect s, HReturnDirect t | HPutKeep s, HPutKeep t | HBorrow s, HBorrow t => s =? t
   | HMove s s', HMove t t' => (s =? t) && (s' =? t')
   | _, _ => false
@@ -357,13 +371,22 @@ Definition marshalto_err : script := [HGet 0; HGet 2; HDrop 2; HDrop 0].        
 Definition scratch_ok : script := [HGet 0; HPut 0].                                              (* SkipNative, SetMany, updateByteLen *)
 Definition scratch_leak : script := [HGet 0; HDrop 0].
 
+(* generic.NewNodeAny/List/Set/Map/Struct (thrift/generic/node.go:83-205): a pooled protocol OBJECT is pointed at a FRESH
+   array (make), the value is written, the node that is returned IS that array; the protocol object is dropped, never
+   recycled: the array belongs to the caller alone. (Slot 0 holds the fresh array; Get with no pool choice allocates.) *)
+Definition newnode_ok : script := [HGet 0; HHandOver 0].
+(* j2t.HTTPConv.Do (conv/j2t/http_conv.go:77-93): pooled buffer, result = fresh array top++body++bottom, Put *)
+Definition httpconv_do_ok : script := [HGet 0; HGet 1; HPut 1; HCopyOut 0; HPut 0].
+
 Definition api_scripts : list script :=
   [conv_do_ok; conv_do_err; conv_do_precond; conv_do_plain_ok; conv_do_plain_err; t2j_do_ok; t2j_do_ok2; t2j_do_err_leak;
-   http_do_err; j2p_do_ok; j2p_do_err; j2p_dointo; marshalto_ok; marshalto_err; scratch_ok; scratch_leak].
+   http_do_err; j2p_do_ok; j2p_do_err; j2p_dointo; marshalto_ok; marshalto_err; scratch_ok; scratch_leak; newnode_ok; httpconv_do_ok].
 
 Definition scripts_ok (scripts : list script) : bool := forallb (forallb shape_ok) scripts.
 
 (* what buggy apis would look like *)
+Definition buggy_newnode_recycle : script := [HGet 0; HReturnDirect 0; HPut 0].                  (* NewNode* with `defer p.Recycle()` on a protocol that lost its borrowed mark *)
+Definition buggy_httpconv_append : script := [HGet 0; HBorrow 5; HReturnDirect 5; HPut 0].       (* result = append(h.top, body...) into the converter's own header array *)
 Definition buggy_return_direct : script := [HGet 0; HReturnDirect 0; HPut 0].                    (* t2j.Do without the copy *)
 Definition buggy_j2p_leak_fix : script := [HGet 0; HGet 3; HGet 1; HPut 3; HPutKeep 1; HMove 0 1; HCopyOut 0; HPut 0].
 Definition buggy_borrow : script := [HBorrow 2].                                                 (* Set() on desc.Requires() itself *)
